@@ -384,8 +384,21 @@ def check_C03(ck):
     cases.append(("pairing/identity-left", "pairing inf %s" % g2.A(g2.gen)))
     cases.append(("pairing/identity-right", "pairing %s inf" % g1.A(g1.gen)))
     cases.append(("pairing/identity-both", "pairing inf inf"))
+    # projective arguments converted by the library's own into_affine: identity representatives (X, Y, 0) with junk X, Y
+    # (what P + (-P) or [r]P leave behind), and finite points with a random Z
+    jc, jexp = [], []
+    P_, Q_ = base[0]
+    for op in ("pairjac", "pairjacprep"):
+        for _ in range(2):
+            jc.append(("identity-junk-representative/G2", "%s %s %s" % (op, g1.J(P_, g1.lam(rng)), junk_identity(g2, rng)))); jexp.append("one")
+            jc.append(("identity-junk-representative/G1", "%s %s %s" % (op, junk_identity(g1, rng), g2.J(Q_, g2.lam(rng))))); jexp.append("one")
+        jc.append(("identity-junk-representative/both", "%s %s %s" % (op, junk_identity(g1, rng), junk_identity(g2, rng)))); jexp.append("one")
+        jc.append(("projective-arguments", "%s %s %s" % (op, g1.J(P_, g1.lam(rng)), g2.J(Q_, g2.lam(rng))))); jexp.append("base0")
     res = ck.run(cases)
     one = O.show_f12(O.F12_ONE)
+    for c, (impl, _), w in zip(jc, ck.run(jc), jexp):
+        want = one if w == "one" else res[0][0]
+        ck.expect(impl == want, "identity->1" if w == "one" else "same-value-either-side", c[1], impl, want, "e(P,Q) on projective arguments; 1 for every representative of the identity")
     for i in range(2):
         ck.expect(res[nb + 2 * i][0] == res[i][0] and res[nb + 2 * i + 1][0] == res[i][0], "same-value-either-side", cases[nb + 2 * i][1], res[nb + 2 * i][0], res[i][0], "pairing_with from G1 or G2 = Engine::pairing")
     for c, (impl, _) in zip(cases[len(base) + 4:], res[len(base) + 4:]):
